@@ -77,8 +77,13 @@ def check(case, acc):
   try:
     cues, _classes = wc.parse_output(out, cfg)
   except strictparse.GrammarError as e:
-    acc.case("ungrammatical")      # C07 owns the grammar; without a parse there is nothing to compare
+    # C07 owns the grammar.  Here it matters that text which cannot be attributed to a cue is lost for the viewer: reported
+    # unless the document's own text looks like markup (SubRip cannot represent that, see below)
+    acc.case("ungrammatical")
     acc.count("ungrammatical-output")
+    if not any(_SRT_MARKUP.search(n.get("t", "")) or "-->" in n.get("t", "") for n, _ in _walk(spec["body"]) if n["k"] == "text"):
+      acc.violation("C06.text", f"{cfg[0]}:unparseable-output", cc, observed=str(e)[:200],
+                    expected="output in which every line of text belongs to a cue", note="the output cannot be split into cues")
     return
   probes, _allms = admissible_probes(K)
   nonblank = False
@@ -202,6 +207,9 @@ def families(check_fn, configs=None, thorough=False):
                "nested span styles (set/reset) x paragraph style"))
   tx = wc.fam_text_items()
   fams.append(("F-text", tx.n, lambda i: wc.text_doc(*tx.decode(i)), cfgs, "markup-significant tokens x xml:space"))
+  sp = wc.fam_split_items()
+  fams.append(("F-text-split", len(sp) * 2, lambda i: wc.split_doc(sp[i // 2], ["default", "preserve"][i % 2]), [c for c in cfgs if c[0] == "vtt"],
+               "markup-significant strings cut into 2-3 adjacent spans at every position (WebVTT)"))
   tm = wc.fam_time_items()
   fams.append(("F-time", len(tm), lambda i: wc.time_doc(*tm[i]), [c for c in cfgs if c in (("srt", True), ("vtt", False, False, True), ("vtt", True, False, True))],
                "millisecond / sub-millisecond / unbounded intervals"))
